@@ -31,6 +31,15 @@ structure RecvSnap where
   index : Nat
   term : Nat
   written : Nat
+  data : List Nat := []               -- the bytes written so far
+deriving DecidableEq, Repr, Inhabited
+
+/-- A snapshot directory that `Close` made visible: the label of its metadata (taken from
+    the request that *created* the file) and its bytes. -/
+structure SnapFile where
+  index : Nat
+  term : Nat
+  data : List Nat
 deriving DecidableEq, Repr, Inhabited
 
 structure Node where
@@ -65,6 +74,7 @@ structure Node where
   nextRound : Nat := 0
   readSeq : Nat := 0                  -- `operationManager.readSequence`
   prevoteWon : Bool := false
+  snaps : List SnapFile := []         -- visible snapshots, oldest first
 deriving DecidableEq, Repr, Inhabited
 
 namespace Node
